@@ -6,6 +6,7 @@ configurations in opposite orders.  Oracle: mc.ref.paths.PathsRef.render + relat
 """
 from __future__ import annotations
 import itertools, os, zlib
+from pathlib import Path
 from mc.rec import Recorder
 from mc import universe
 
@@ -116,6 +117,50 @@ def check_sid(ref, prefs, Sid, typ, s, rec, table):
     return out, ("with-path" if has_any else "no-path-type")
 
 
+def symlink_probe(ref, prefs, names, Sid, rec, first):
+    """The path <-> Sid mapping is configuration, not file-system state: a Sid's path that exists as a symbolic link to
+    another entity's path (a PUBLISH file linked to its WORK file, a version folder linked to the previous one) still
+    resolves to the Sid it was rendered from."""
+    from mc import env, tree
+    conc = universe.one_per_type(ref, rep=1)
+    for cname in names:
+        pr = prefs[cname]
+        env.clear_tree()
+        for typ, s in conc.items():
+            if not pr.has_path(typ) or len(ref.keys(typ)) < 3:
+                continue
+            segs = s.split("/")
+            for i in range(2, len(segs)):
+                pool = [v for v in ref.accepted(typ, i, ref.literals() + ref.digit_instances()) if v not in ("*", ">") and v != segs[i] and v not in ref.alias]
+                if not pool:
+                    continue
+                other = "/".join(segs[:i] + [pool[0]] + segs[i + 1:])
+                if ref.natural(other)[0] != typ:
+                    continue
+                pa = tree.entity_path(ref, pr, s)
+                pb = tree.entity_path(ref, pr, other)
+                if pa is None or pb is None or pa[0] == pb[0]:
+                    continue
+                tree.materialize(ref, pr, [s])
+                os.makedirs(os.path.dirname(pb[0]), exist_ok=True)
+                if os.path.lexists(pb[0]):
+                    continue
+                os.symlink(pa[0], pb[0])
+                env.reset()
+                for form in (pb[0], Path(pb[0])):
+                    try:
+                        back = Sid(path=form, config=cname)
+                        ok = back.uri == typ + ":" + other and str(Sid(other).path(cname)) == pb[0]
+                    except Exception as e:  # noqa
+                        back, ok = "EXC " + type(e).__name__, False
+                    rec.case("symlinked-path", True, sample=[cname, other, "->", s])
+                    if not ok:
+                        rec.violation("roundtrip/depends-on-file-system-state(symlink)", "symlink", [cname, s, other, first],
+                                      getattr(back, "uri", back), typ + ":" + other)
+                os.unlink(pb[0])
+    env.clear_tree()
+
+
 def run_shard(sh):
     from mc.ref.model import Conf
     from mc.ref.paths import PathsRef
@@ -149,6 +194,8 @@ def run_shard(sh):
         rec.case(cls, cls == "with-path", sample=s)
         for v in viols:
             rec.violation(v["signature"], "sid", [s, sh["first"]], v["observed"], v["expected"])
+    if sh["index"] == 0:
+        symlink_probe(ref, prefs, names, Sid, rec, sh["first"])
     for s in ["bla", "hamlet/zz", "", "a/b/c/d/e/f/g/h/i/j"]:
         x = Sid(s)
         for cname in list(names) + [None]:
@@ -191,6 +238,16 @@ def post(m, results, tier, seed):
 
 
 def replay_case(kind, case):
+    if kind == "symlink":
+        from mc.ref.model import Conf
+        from mc.ref.paths import PathsRef
+        from spil import Sid
+        ref = Conf()
+        names = list(PathsRef().configs)
+        prefs = {n: PathsRef(n) for n in names}
+        rec = Recorder()
+        symlink_probe(ref, prefs, names, Sid, rec, case[3])
+        return [v for lst in rec.violations.values() for v in lst]
     if kind == "order":
         return [dict(signature="import-order-changes-paths" if case[0] == "partition" else "two-sids-one-path", observed=case, expected="")]
     from mc.ref.model import Conf
